@@ -72,7 +72,9 @@ func Mv(r *Root, src, dst string) error {
 		return err
 	}
 
-	if srcDir.name == dstDir.name && srcFname == dstFname {
+	// Moving an entry onto itself: nothing to remove. Compare the directories
+	// by their full path: directories in different parents can share a name.
+	if srcDir.Path() == dstDir.Path() && srcFname == dstFname {
 		return nil
 	}
 
